@@ -1,6 +1,7 @@
 """C10 — repartitioning delivers every row exactly once to the right partition: structural clauses."""
 from traces import *
 import C16
+import hashbuf
 
 TECHNIQUE = 'static analysis: who-may-seed census and value-origin of the routing hash state; call-graph must-reach; path enumeration of the task-completion fan-out; pending-needs-delegation on the output stream'
 EXPLANATION = ('(a) Single routing seed: SeededRandomState::with_seed is called only by the two seed constants and the plan decoder; '
@@ -10,7 +11,7 @@ EXPLANATION = ('(a) Single routing seed: SeededRandomState::with_seed is called 
                'each of its three arms every output channel yielded by the iteration is sent a terminal message — Some(Err(..)) '
                'carrying the join error or the task error in the two failure arms, None on success. (e) PerPartitionStream::'
                'poll_next_inner returns Pending only by delegation to an inner poll. Clause (d) — no engine error of pull_from_input is '
-               'swallowed — is decided by the C20 site rule. Exact placement of rows, spilling order and schedules are not decided.')
+               'swallowed — is decided by the C20 site rule. (f) Both routers hash into a buffer that is all zeros on every path (vec![0; n] or clear()+resize(n, 0)), so the hash of a NULL key cannot depend on an earlier batch. Exact placement of rows, spilling order and schedules are not decided.')
 ASSUMPTIONS = ['loops unrolled twice: "every output" is checked per iteration of the for-loop over txs']
 
 RP = 'datafusion_physical_plan::repartition::'
@@ -159,4 +160,10 @@ def run(ctx):
                 ctx.ok('pending-is-delegated', 'poll_next_inner', sample={'pending_paths': npend})
         except Undecidable as e:
             ctx.undecided('pending-is-delegated', 'poll_next_inner', str(e))
+    # (f) the routing hashes are computed into a zeroed buffer (a stale slot makes equal NULL keys route differently)
+    ROUTERS = (RP + 'BatchPartitioner::partition_iter',
+               '<datafusion_physical_plan::joins::hash_join::partitioned_hash_eval::HashExpr as datafusion_physical_expr_common::physical_expr::PhysicalExpr>::evaluate')
+    nr = hashbuf.check_callers(ctx, 'routing-hash-buffer-zeroed', select=lambda c: c in ROUTERS)
+    if nr < 2:
+        ctx.lost('routing-hash-buffer-zeroed', 'create_hashes call in partition_iter / HashExpr::evaluate')
     ctx.selftest('who-may-seed census is non-empty', len(seeders) >= 3)
